@@ -12,6 +12,14 @@ from ..build import InfraError
 
 ID = "C02"
 LEVEL = "exploration"
+META = dict(
+    engine="E1-enum", level="exploration",
+    technique="exhaustive enumeration of every (type, bit offset, width) placement x boundary value set, compared "
+              "with gcc-compiled accessors",
+    text="All 9.7k placements of a bitfield inside its storage unit for the 10 integer types (+ _Bool, + bitfields "
+         "after plain bytes) x ~70 boundary values x 2 backgrounds: acceptance iff in range, read-back, byte image "
+         "equal to the image the compiled C setter produces, and cross-reads in both directions.",
+    note="gcc 12 on this machine is the authority; ctypes is the trusted channel to it")
 
 TYPES = [("signed char", 8, True), ("unsigned char", 8, False), ("short", 16, True),
          ("unsigned short", 16, False), ("int", 32, True), ("unsigned int", 32, False),
